@@ -568,26 +568,35 @@ def c15(tier, seed):
       "tracks the depth of the container's mutex: on return it equals the entry depth; at entry depth 0 a second thread then "
       "tries the mutex and must get it. The harness's function table is cross-checked against the extern prototypes of the "
       "public headers. non-trivial = the planned allocation failure was hit (or the fault-free case of a distinct function)",
-      ["lock depth is observed at pthread level, independently of the library's own counter"],
-      [need("evaluations", 10000), need("lock_depth_checks", 10000), need("probe_thread_checks", 5000), functions_covered],
-      classes=["lock:*"])
+      ["lock depth is observed at pthread level, independently of the library's own counter",
+       "E2 part: every 2-thread 1-operation program per container with <= 2 preemptions and <= 1 (thorough 2) time-outs of the wait for "
+       "the lock - the waiting thread's trylock calls get the real EBUSY answers until the library's stall breaker (5000 attempts, "
+       "forced Q_MUTEX_LEAVE) has run; afterwards every thread must still complete and the lock must be free"],
+      [need("evaluations", 10000), need("lock_depth_checks", 10000), need("probe_thread_checks", 5000), need("lock_wait_timeouts_explored", 1000), functions_covered],
+      classes=["lock:*", "conc:deadlock:*", "conc:livelock:*", "conc:lock-left-held:*", "conc:forced-unlock*"])
 def c14(tier, seed):
-    return fault_jobs(tier, "C14")
+    return fault_jobs(tier, "C14") + c13_jobs(tier, "timeout")
 
 
 SCHED_WRAPS = ["pthread_mutex_trylock", "pthread_mutex_unlock", "usleep"]
 C13_CONTAINERS = ["qvector", "qlist", "qqueue", "qstack", "qqueue-int", "qstack-int", "qtreetbl", "qhashtbl", "qlisttbl", "qlisttbl-unique"]
 
 
-def c13_jobs(tier):
+def c13_jobs(tier, which="all"):
     H = ["sched/c13.c", "sched/sched.c"]
     X = tier == "thorough"
     jobs = []
-    def add(cont, shape, pb, flavour, shards, w):
+    def add(cont, shape, pb, flavour, shards, w, to=0):
         for i in range(shards):
-            jobs.append(Job("%s-%s-s%d-pb%d-%d" % (flavour, cont, shape, pb, i), H, [cont, shape, pb, i, shards], flavour=flavour,
+            jobs.append(Job("%s-%s-s%d-pb%d%s-%d" % (flavour, cont, shape, pb, "-to%d" % to if to else "", i), H, [cont, shape, pb, i, shards] + ([to] if to else []), flavour=flavour,
                             wraps=SCHED_WRAPS, nosan=["sched/sched.c"], weight=w, env={"VC_PIN": "1"}))
     for cont in C13_CONTAINERS:
+        # the wait for the lock times out (bounded deviation instead of real time): the library's stall breaker really runs
+        add(cont, 11, 2, "asan", 1, 4, to=2 if X else 1)
+        if X:
+            add(cont, 21, 2, "asan", 4, 20, to=1)
+        if which == "timeout":
+            continue
         add(cont, 11, 3 if X else 2, "asan", 1, 1)
         add(cont, 21, 3 if X else 2, "asan", 4 if X else 2, 6)
         add(cont, 11, 2, "tsan", 1, 2)
@@ -610,8 +619,9 @@ def c13_jobs(tier):
       "real-time order respected), deadlock/livelock, lock left held; the same programs and schedules on a TSan build whose "
       "scheduler is invisible to the sanitizer: any data race report is a violation",
       ["unlocked code between two scheduling points runs atomically in the search; unlocked accesses are caught by the TSan pass instead",
-       "the 5000-spin forced-unlock branch of Q_MUTEX_ENTER depends on real time and is not explored"],
-      [need("programs", 1000), need("transitions", 10000), need("programs_with_several_outcomes", 10), forbid("replay_divergence")],
+       "the 5000-spin stall breaker of Q_MUTEX_ENTER is explored as a bounded deviation (<= 1, thorough 2, time-outs per execution of the 1-operation programs, asan flavour), not in real time; "
+       "the library's own depth counter, which the stall breaker decrements from a thread that does not hold the lock, is bookkeeping and is not judged (no tsan pass with time-outs)"],
+      [need("programs", 1000), need("transitions", 10000), need("programs_with_several_outcomes", 10), need("lock_wait_timeouts_explored", 1000), forbid("replay_divergence")],
       classes=["conc:*", "asan:*"])
 def c13(tier, seed):
     return c13_jobs(tier)
